@@ -42,6 +42,16 @@ fn run_collapse(c: &CollapseCase, st: &mut Stats) -> CaseResult {
 			streamed.push(o);
 		}
 	}
+	if cs.len() < p {
+		// fewer inputs than one period (also no input at all): the batch forms emit nothing, like the stream
+		let none: Vec<Candle> = Vec::new();
+		for (what, seq) in [("the stream", &cs), ("an empty sequence", &none)] {
+			for continuous in [false, true] {
+				let r = engine::catch(|| seq.collapse_timeframe(p, continuous)).map_err(|e| Failure::new(format!("C17:collapse:short-{}", e.sig()), format!("collapse_timeframe({p}, {continuous}) on {what} ({} candles) panicked at {}: {}", seq.len(), e.loc, e.msg)))?;
+				ensure!(r.is_empty(), "C17:collapse:short", "collapse_timeframe({p}, {continuous}) on {what} ({} candles) returned {} candles", seq.len(), r.len());
+			}
+		}
+	}
 	if cs.len() >= p {
 		let batch = cs.collapse_timeframe(p, false);
 		ensure!(batch == streamed, "C17:collapse:batch", "collapse_timeframe({p}, false) gives {} candles, streaming gave {}; or contents differ", batch.len(), streamed.len());
